@@ -24,6 +24,8 @@ type c05Case struct {
 	CallKeys []string   `json:"expected_calls"`
 	Multiset bool       `json:"multiset,omitempty"`
 	Shape    string     `json:"shape,omitempty"`
+	Before   []string   `json:"before,omitempty"` // kind "history": the request executed first, on another connection
+	Absent   bool       `json:"absent,omitempty"` // ... by a handler reporting every key absent
 }
 
 // c05Check executes one request after SELECT db and compares with the prediction.
@@ -145,6 +147,7 @@ func c05Run(c *fw.Ctx) {
 			}
 		})
 	}
+	c05History(c)
 	// composites that delegate to one primitive: the primitive must be called with the
 	// client's key/field and, for ZREVRANGEBYSCORE, with the client's bounds and
 	// exclusive markers on the right side (the remaining arguments are the
@@ -211,6 +214,95 @@ func c05Run(c *fw.Ctx) {
 				c.Violation("C05|unknown-command||"+clause, detail+" request="+argsString(cs.Args), cs)
 			}
 		}
+	}
+}
+
+// c05History: a request must reach the handler with the client's arguments
+// whatever the server executed before. For every valid catalogue request A
+// (every command, composites and framework commands included) run on one
+// connection - once with a handler that reports everything present, once with
+// one that reports everything absent, so that conditional composites such as
+// MSETNX/HSETNX take both branches - and every representative request B sent
+// afterwards on another connection of the same server, the calls recorded for
+// B are the ones predicted for B alone.
+func c05HistoryCheck(cs c05Case) (clause, detail string) {
+	d := srv.NewDouble()
+	s := srv.NewServer(d)
+	s.SetAuthCommandHandler(d)
+	if cs.Absent {
+		d.Result = func(d *srv.Double, c srv.Call) (*redis.Message, error) { return redis.NewNilMessage(), nil }
+	}
+	if o := srv.RunConn(s, seq.NewConn(seq.Script{Input: grammar.Encode(cs.Before)})); o.Panic != "" || o.Spin != "" {
+		return "", "" // the earlier request itself misbehaves: C03/C07
+	}
+	n := len(d.Calls)
+	d.Result = nil
+	out := srv.RunConn(s, seq.NewConn(seq.Script{Input: concat(grammar.Encode([]string{"SELECT", fmt.Sprint(cs.DB)}), grammar.Encode(cs.Args))}))
+	if cl, dt := crashClause(out); cl != "" {
+		return cl, dt
+	}
+	got := d.Calls[n:]
+	if !callsEqual(got, cs.Calls, cs.Multiset) {
+		return "call-mismatch-after-earlier-request", fmt.Sprintf("after %s, handler calls %s, expected %s", argsString(cs.Before), callsString(got), strings.Join(cs.CallKeys, "; "))
+	}
+	return "", ""
+}
+
+func c05History(c *fw.Ctx) {
+	var after []c05Case
+	for _, s := range grammar.Specs {
+		if s.Framework || s.Composite || s.Build == nil {
+			continue
+		}
+		n := 0
+		grammar.EachWellFormed(s, true, 2, func(r grammar.Req) {
+			// the first, and every 7th after it up to four per command: plain and option-carrying shapes
+			if n%7 == 0 && n < 28 {
+				after = append(after, c05Case{Kind: "history", DB: 3, Args: r.Args, Calls: r.Calls, CallKeys: srv.CallKeys(r.Calls, false), Multiset: r.Multiset, Shape: r.Shape})
+			}
+			n++
+		})
+	}
+	var before [][]string
+	perCmd := map[string]int{}
+	for _, it := range catalogue() {
+		if it.Kind != "valid" {
+			continue
+		}
+		name := it.Label[:strings.IndexByte(it.Label, '|')]
+		perCmd[name]++
+		if perCmd[name] > 3 {
+			continue
+		}
+		v, _, err := resp.Decode(it.Bytes, 0)
+		if err != nil {
+			continue
+		}
+		var a []string
+		for _, e := range v.Elems {
+			a = append(a, string(e.Data))
+		}
+		before = append(before, a)
+	}
+	for _, a := range before {
+		for _, absent := range []bool{false, true} {
+			for _, b := range after {
+				if !c.Mine() {
+					continue
+				}
+				cs := b
+				cs.Before, cs.Absent = a, absent
+				c.Eval()
+				c.Nontrivial()
+				if clause, detail := c05HistoryCheck(cs); clause != "" {
+					c.Violation("C05|"+strings.ToUpper(b.Args[0])+"|after:"+strings.ToUpper(a[0])+"|"+clause, detail+" request="+argsString(b.Args), cs)
+				}
+			}
+		}
+	}
+	if c.Shard == 0 {
+		c.Count("history_contexts", int64(2*len(before)))
+		c.Count("history_requests", int64(len(after)))
 	}
 }
 
@@ -331,7 +423,7 @@ func c05Replay(raw json.RawMessage) (string, bool, error) {
 	if cs.Kind == "deleg" {
 		return "", false, fmt.Errorf("delegation cases are re-derived by the check itself; run ./check C05 quick")
 	}
-	if cs.Kind == "cmd" || cs.Kind == "auth" {
+	if cs.Kind == "cmd" || cs.Kind == "auth" || cs.Kind == "history" {
 		// re-derive the prediction from the grammar (the stored keys are informative only)
 		cs.Calls = nil
 		if cs.Kind == "auth" {
@@ -348,6 +440,13 @@ func c05Replay(raw json.RawMessage) (string, bool, error) {
 				}
 			})
 			if !found {
+				grammar.EachWellFormed(s, true, 2, func(r grammar.Req) {
+					if !found && argsString(r.Args) == argsString(cs.Args) {
+						cs.Calls, cs.Multiset, found = r.Calls, r.Multiset, true
+					}
+				})
+			}
+			if !found {
 				grammar.EachWellFormed(s, true, 3, func(r grammar.Req) {
 					if !found && argsString(r.Args) == argsString(cs.Args) {
 						cs.Calls, cs.Multiset, found = r.Calls, r.Multiset, true
@@ -360,6 +459,10 @@ func c05Replay(raw json.RawMessage) (string, bool, error) {
 		}
 		cs.CallKeys = srv.CallKeys(cs.Calls, false)
 	}
+	if cs.Kind == "history" {
+		clause, detail := c05HistoryCheck(cs)
+		return fmt.Sprintf("before=%q absent=%v request=%q clause=%q %s", cs.Before, cs.Absent, cs.Args, clause, detail), clause != "", nil
+	}
 	clause, detail := c05Check(cs)
 	return fmt.Sprintf("request=%s db=%d expected=%v clause=%q %s", argsString(cs.Args), cs.DB, cs.CallKeys, clause, detail), clause != "", nil
 }
@@ -368,7 +471,7 @@ func init() {
 	fw.Register(&fw.Prop{
 		ID:    "C05",
 		Level: "exploration",
-		Rule:  "for every command that maps onto handler operations: all well-formed argument vectors from the independent grammar (positional values over small per-kind pools incl. binary/CRLF strings and boundary integers/floats, list tails of 1..3 elements with duplicates, pair lists with repeated keys, every legal option subset in every order for SET/ZADD/ZRANGE/ZRANGEBYSCORE/EXPIRE/SCAN/LPOP) x 3 letter-case variants x SELECT {0,3}; plus the primitive call of every delegating composite (key/field passed through; ZREVRANGEBYSCORE bounds and exclusive markers on the right side), AUTH forms, an application-registered executor and unknown names at edit distance 1. Each case is a distinct request; all are non-trivial (each compares the recorded handler calls with the predicted ones).",
+		Rule:  "for every command that maps onto handler operations: all well-formed argument vectors from the independent grammar (positional values over small per-kind pools incl. binary/CRLF strings and boundary integers/floats, list tails of 1..3 elements with duplicates, pair lists with repeated keys, every legal option subset in every order for SET/ZADD/ZRANGE/ZRANGEBYSCORE/EXPIRE/SCAN/LPOP) x 3 letter-case variants x SELECT {0,3}; plus the primitive call of every delegating composite (key/field passed through; ZREVRANGEBYSCORE bounds and exclusive markers on the right side), history independence (every valid catalogue request of every command, run first on another connection with a handler reporting everything present and one reporting everything absent, then up to four representative requests per command: the calls recorded for the later request are those predicted for it alone), AUTH forms, an application-registered executor and unknown names at edit distance 1. Each case is a distinct request; all are non-trivial (each compares the recorded handler calls with the predicted ones).",
 		Assumptions: []string{
 			"the grammar in /verif/grammar (written from the Redis reference and the handler interface) is the reference for the expected call",
 			"SCAN patterns are compared behaviourally on 14 probe keys; ZRANGE BYSCORE REV, SCAN TYPE, BYLEX are not generated (the interface cannot express them unambiguously)",
